@@ -240,7 +240,7 @@ impl<const N: u32> PxE2<{ N }> {
                     } else {
                         if reg_z == (N - 2) {
                             bit_n_plus_one = (exp_z & 0x2) != 0;
-                            bits_more = (exp_z & 0x1) != 0;
+                            bits_more |= (exp_z & 0x1) != 0;
                             exp_z = 0;
                         } else if reg_z == (N - 3) {
                             bit_n_plus_one = (exp_z & 0x1) != 0;
